@@ -5,6 +5,7 @@ from ..runner import Case
 from .. import gen, core
 
 ID = "C18"
+OPT_MODE = False     # (moves / WL runs / plots are not re-run under python -O)
 LEAN_TARGETS = ["Cider.Props.C18", "Cider.Props.C18Bin"]
 # source-text tie (translated on every run by tools/pyexpr2lean.py); skipped when the function no longer fits the translator
 OPTIONAL_TARGETS = ["Cider.Props.C18Src"]
@@ -71,6 +72,10 @@ def cases(rng, tier):
         for nb in ((4, 5) if tier == "quick" else (3, 4, 5, 8)):
             yield Case(["wlrun %s %d 0 1 9000 1/4 501/1000 %d %d - script:%s*%d,%s*2,%s*3,%s*1" % (low, nb, rng.randint(0, 10 ** 6), n1 + 40, low, n1, mid, low, mid)],
                        {"kind": "scripted-proposals-large-g-difference"})
+    # a flat check after EVERY step with a strict criterion: dozens of unsuccessful scheduled checks before the first iteration ends
+    for i in range(3 if tier == "quick" else 12):
+        s = rng.choice(["EKEKEKRDQGSA", "EKEKGGEKRDGG", "KEKEGGDRKEAG"])
+        yield Case(["wlrun %s 4 0 1 %d 4/5 301/1000 %d 600 -" % (s, rng.choice([1, 2]), rng.randint(0, 10 ** 6))], {"kind": "flat-check-every-step"})
     # the SECOND run() on one machine obeys the same rules from the same initial state
     for i in range(3 if tier == "quick" else 12):
         s = rng.choice(["EKEKEKRDQGSA", "EKEKGGEKRDGG", "KEKEGGDRKE"])
@@ -220,11 +225,41 @@ def judge(case, reals, gens, specs):
     rng_ = list(range(cfg["rmin"], cfg["rmax"] + 1))
     if len(dl) != len(rng_) or any(abs(float(b) - g[i]) > 6e-7 for i, (a, b) in zip(rng_, dl)):
         bad("DOS_local.txt %r does not match final g over the range" % (dl,))
-    for line in d["files"].get("seqlog.txt", "").strip().split("\n")[1:]:
-        kx, sx = line.split("\t")
-        o = core.run_driver(["q kappa " + sx], "spec")[0]
-        if abs(float(kx) - float(core.parse_rat(o.split(" ")[1]))) > 6e-4 or sorted(sx) != srt:
-            bad("seqlog line %r: kappa of that sequence is %s" % (line, o))
+    try:
+        for line in d["files"].get("seqlog.txt", "").strip().split("\n")[1:]:
+            kx, sx = line.split("\t")
+            o = core.run_driver(["q kappa " + sx], "spec")[0]
+            if abs(float(kx) - float(core.parse_rat(o.split(" ")[1]))) > 6e-4 or sorted(sx) != srt:
+                bad("seqlog line %r: kappa of that sequence is %s" % (line, o))
+        # the iteration logs describe THIS run only: per-iteration g increments = ln f x the final histogram of that iteration
+        grows = [[float(x) for x in l.split("\t")[1:] if x.strip()] for l in d["files"].get("glog.txt", "").strip().split("\n")[1:] if l.strip()]
+        hfinal, cur_h = [], None
+        for l in d["files"].get("hlog.txt", "").strip().split("\n")[1:]:
+            if l.startswith("iter"):
+                if cur_h is not None:
+                    hfinal.append(cur_h)
+                cur_h = None
+            elif l.strip():
+                cur_h = [float(x) for x in l.split("\t")[1:] if x.strip()]
+        if cur_h is not None:
+            hfinal.append(cur_h)
+        if len(grows) != niter or len(hfinal) < niter:
+            bad("glog.txt has %d iterations, hlog.txt %d; the run completed %d" % (len(grows), len(hfinal), niter))
+        prev = [0.0] * n
+        for k_, (gr, hf) in enumerate(zip(grows, hfinal)):
+            lnf_k = 2.0 ** (-k_)
+            inc = [a - b for a, b in zip(gr, prev)]
+            if len(gr) != n or len(hf) != len(rng_) or any(abs(inc[i] - lnf_k * h) > 1e-3 for i, h in zip(rng_, hf)) or \
+                    any(abs(inc[i]) > 1e-3 for i in range(n) if i not in rng_):
+                bad("iteration %d: g increment %r is not ln f (=%g) x final histogram %r" % (k_ + 1, [round(a - b, 4) for a, b in zip(gr, prev)], lnf_k, hf))
+                break
+            prev = gr
+        hb = [float(x) for x in d["files"].get("histogram_bins.txt", "").split()]
+        exp_hb = list(bincts) + [bincts[i] for i in rng_]
+        if len(hb) != len(exp_hb) or any(abs(a - b) > 6e-5 for a, b in zip(hb, exp_hb)):
+            bad("histogram_bins.txt lists %r, the run's centres are %r" % (hb[:12], [round(x, 4) for x in exp_hb]))
+    except (ValueError, IndexError) as e:
+        bad("output logs cannot be read as the logs of one run: %r" % (e,))
     # oracle 2: the Lean state machine
     for mode in ("spec",):
         res = core.run_driver(lines, mode)
